@@ -43,9 +43,9 @@ std::string c99code(const Basic &x) __attribute__((weak));
 
 static const char *SYMS[] = {"x", "y", "z", "w", "ab"};
 static const double POINTS[3][5] = {
-    {0.7, 1.3, 2.1, 0.4, 3.2},
-    {1.9, 0.6, 0.3, 2.7, 1.1},
-    {-0.8, 2.4, -1.6, 0.9, -2.2},
+    {0.71, 1.37, 2.13, 0.43, 3.19},
+    {1.93, 0.61, 0.29, 2.71, 1.13},
+    {-0.83, 2.41, -1.57, 0.93, -2.19},
 };
 
 static std::vector<std::string> split_sep(const std::string &s, const std::string &sep)
